@@ -55,6 +55,16 @@ func c13Run(res *vResult, cs c13Case, ready *grpc.ClientConn) (viol, desc string
 	var now time.Duration
 	usedSeq := map[uint32]bool{}
 	var met interface{ Stop() error }
+	var bessU *upf
+	if !cs.P4 {
+		vsched.S = nil
+		bessU, _ = schedUPF(false, 100000*time.Second, ready)
+		defer func() {
+			if b, ok := bessU.datapath.(*bess); ok && b.conn != nil {
+				b.conn.Close()
+			}
+		}()
+	}
 	s.Run(func() {
 		fab := vnet.NewFabric()
 		var u *upf
@@ -72,7 +82,7 @@ func c13Run(res *vResult, cs c13Case, ready *grpc.ClientConn) (viol, desc string
 			vsched.Go("up4.listenToDDNs", up.listenToDDNs)
 		} else {
 			var b *bess
-			u, _ = schedUPF(false, 100000*time.Second, ready)
+			u = bessU
 			b = u.datapath.(*bess)
 			notifySock = &vnet.UnixSock{}
 			fab.Unix["/tmp/notifycp"] = notifySock
